@@ -165,12 +165,14 @@ PROPS = {
         race=True, gen=gen_lock, timeout=3000,
         note="sync.RWMutex implementing the protocol, the Go memory model and the scheduler are trusted; lockscan (source translator) is trusted.",
     ),
-    "C13_pending": dict(
+    "C13": dict(
         rule="states of Pollard, full and partial MapPollard (TotalRows 0,4,5,63) after random histories: restore under 5 chunkings "
              "(whole, 1 byte, 16, random, data-with-EOF), every truncation point (sampled above 600 bytes in quick), writer failure "
              "at 50/400 offsets, byte counts and SerializeSize, restored instance observed through the interface by the oracle and "
-             "compared on internal maps incl. Remember, then 3 blocks + undo on the restored instances",
-        strength="P: codec theorems on the mirror (as delivered); V: Go bytes/round-trip/faults on every state",
+             "compared on internal maps incl. Remember, then 3 blocks + undo on the restored instances; the bytes WriteTo produced "
+             "must equal the Coq encoding of the reference forest (niece view) and the bytes MapPollard.Write produced must decode "
+             "with the Coq mirror to exactly the dumped maps and re-encode to the same bytes",
+        strength="P: round trip, chunk independence, every strict prefix rejected, size, failing sink, never out of fuel (both formats) + niece view of the reference forest is well-formed; V: Go bytes = Coq encoding of the reference; faults on every state",
         level_text="Both wire formats are mirrored in Gallina over byte lists with chunk-oracle readers and failing sinks; round-trip, "
                    "chunking independence, prefix rejection and size theorems are proved there; the Go code is run on every reader "
                    "chunking, truncation point and sink failure and the restored instances are judged by the extracted oracle.",
@@ -246,5 +248,5 @@ PROPS = {
 
 # hooks
 HOOK_COMMITS = ["1f8cf1e"]
-NOT_YET = {"C13": "Coq codec mirror is being built in this session; harness part exists (bin/check C13 works once Properties/C13.v lands)"}
+NOT_YET = {}
 PROPS = {k: v for k, v in PROPS.items() if not k.endswith("_pending")}
